@@ -14,10 +14,13 @@ TSS_ASSUME = [
     "the number of stored DE entries per address is read from the raw tss store (prefix iteration), everything else through exported keeper getters",
 ]
 
-_MC = [
-    dict(tla="TssSigning_MC.tla", cfg="TssSigning_MC_h5.cfg", tier="thorough", timeout=2400, workers=_W),
-    dict(tla="TssSigning_MC.tla", cfg="TssSigning_MC_live3.cfg", tier="thorough", timeout=1500, workers=_W),
-]
+def _mc(cfg, tier="thorough", timeout=2400):
+    return dict(tla="TssSigning_MC.tla", cfg=cfg, tier=tier, timeout=timeout, workers=_W)
+
+
+# thorough facets (measured at 6 workers on a loaded 16-core box, see the family report)
+_MC_C05 = [_mc("TssSigning_MC_h5.cfg"), _mc("TssSigning_MC_pre.cfg"), _mc("TssSigning_MC_t1a3.cfg"), _mc("TssSigning_MC_x.cfg")]
+_MC_C10 = [_mc("TssSigning_MC_pchg.cfg"), _mc("TssSigning_MC_pen.cfg"), _mc("TssSigning_MC_p2.cfg"), _mc("TssSigning_MC_live3.cfg")]
 
 _RULE = ("scripts = TLC -simulate walks of TssSigning.tla (role-relative: members by index, k-th assigned / unassigned member "
          "of signing j) + seeded random scripts; a script is non-trivial if its recorded trace contains a time-out, a retry, "
@@ -25,7 +28,7 @@ _RULE = ("scripts = TLC -simulate walks of TssSigning.tla (role-relative: member
 
 PROPS = {
     "C05": dict(
-        mc=[dict(tla="TssSigning_MC.tla", cfg="TssSigning_MC_C05.cfg", tier="quick", timeout=900, workers=_W)] + _MC,
+        mc=[_mc("TssSigning_MC_C05.cfg", "quick", 900)] + _MC_C05,
         gen=dict(tla="TssSigning_Gen.tla", cfg="TssSigning_Gen.cfg", depth=26, num=dict(quick=300, thorough=4000), timeout=900),
         drive=dict(family="tsssigning", mode="c05", nrand=dict(quick=300, thorough=6000)),
         trace=dict(tla="TssSigning_Trace.tla", cfg="TssSigning_Trace_C05.cfg"),
@@ -33,8 +36,7 @@ PROPS = {
         assumptions=TSS_ASSUME,
     ),
     "C10": dict(
-        mc=[dict(tla="TssSigning_MC.tla", cfg="TssSigning_MC_C10.cfg", tier="quick", timeout=900, workers=_W),
-            dict(tla="TssSigning_MC.tla", cfg="TssSigning_MC_live.cfg", tier="quick", timeout=300, workers=_W)] + _MC,
+        mc=[_mc("TssSigning_MC_C10.cfg", "quick", 900), _mc("TssSigning_MC_live.cfg", "quick", 300)] + _MC_C10,
         gen=dict(tla="TssSigning_Gen.tla", cfg="TssSigning_Gen.cfg", depth=26, num=dict(quick=300, thorough=4000), timeout=900),
         drive=dict(family="tsssigning", mode="c10", nrand=dict(quick=300, thorough=6000)),
         trace=dict(tla="TssSigning_Trace.tla", cfg="TssSigning_Trace_C10.cfg"),
